@@ -146,9 +146,21 @@ func genC16(rng *rand.Rand, tier string) *sim.Plan {
 			if r == 0 {
 				// more events than the receiver's duplicate cache holds (100) are delivered and applied while
 				// their acknowledgements hang in the network; then the stream breaks and the acknowledgements are lost
+				held := 104 + rng.IntN(30)
+				if chance(rng, 0.5) {
+					// variant: the duplicate cache is already full of events that were applied AND acknowledged when a
+					// few more are applied whose acknowledgements get lost
+					var warm sim.Phase
+					for i := 0; i < 100+rng.IntN(25); i++ {
+						msg++
+						warm.Ops = append(warm.Ops, sim.Op{K: "publish", C: l.pub[a], Topic: fmt.Sprintf("m/%d", a), QoS: 1, Payload: fmt.Sprintf("p%d", msg), NoWait: true})
+					}
+					p.Phases = append(p.Phases, warm, sim.Phase{Ops: []sim.Op{{K: "sleep", C: nextAPI(), D: sim.Sec(1)}}})
+					held = 2 + rng.IntN(30)
+				}
 				p.Phases = append(p.Phases, sim.Phase{Ops: []sim.Op{{K: "api_custom", C: nextAPI(), Custom: "fed_hold_acks", Mode: "on", Target: fedNode(a) + ">" + fedNode(b)}}})
 				var burst sim.Phase
-				for i := 0; i < 104+rng.IntN(30); i++ {
+				for i := 0; i < held; i++ {
 					msg++
 					burst.Ops = append(burst.Ops, sim.Op{K: "publish", C: l.pub[a], Topic: fmt.Sprintf("m/%d", a), QoS: 1, Payload: fmt.Sprintf("p%d", msg), NoWait: true})
 				}
